@@ -461,7 +461,8 @@ def part_paths(part, n, exhaustive_paths, lib=None):
 FUNC_PRELUDE = (
     "def mk(n) do def g() n; g end; "
     "def F = << {fs} >>; def FM = <<< {fm} >>>; "
-    "def G = << mk(1), mk(2), mk(3), mk(4) >>; ")
+    "def G = << mk(1), mk(2), mk(3), mk(4) >>; "
+    "def FF = << {ffs} >>; def FL = << {fls} >>; ")
 FUNC_PATHS = [
     ("fn-set-comprehension", "[f() for f in F]"),
     ("fn-set-loop", "def r = []; for f in F do append(r, f()) end; r"),
@@ -477,6 +478,11 @@ FUNC_PATHS = [
     ("fn-named-set-loop", "def r = []; for f in G do append(r, f()) end; r"),
     ("fn-set-destructure", "def [a, b] = F; [a(), b()]"),
     ("fn-set-union", "[f() for f in F + G]"),
+    # collections with one text (the functions in them have one name)
+    ("fn-set-of-sets", "[list(e)[0]() for e in FF]"),
+    ("fn-set-of-sets-destructure", "def [a, b] = FF; [list(a)[0](), list(b)[0]()]"),
+    ("fn-set-of-lists", "[e[0]() for e in FL]"),
+    ("fn-set-of-sets-spread", "[list(e)[0]() for e in [...FF]]"),
 ]
 
 
@@ -493,7 +499,9 @@ def part_functions(part):
                 ks.reverse()
             fs = ", ".join(f"fn() {k}" for k in ks)
             fm = ", ".join(f"(fn() {k}) => 'v{k}'" for k in ks)
-            pre = FUNC_PRELUDE.format(fs=fs, fm=fm)
+            ffs = ", ".join(f"<<fn() {k}>>" for k in ks)
+            fls = ", ".join(f"[fn() {k}, 0]" for k in ks)
+            pre = FUNC_PRELUDE.format(fs=fs, fm=fm, ffs=ffs, fls=fls)
             for label, path in FUNC_PATHS:
                 progs.append({"src": pre + path, "strings": []})
                 labels.append(label)
